@@ -10,3 +10,4 @@ import Peppi.Props.C11
 #print axioms Peppi.Props.C11.frag
 #print axioms Peppi.Props.C11.run_readProg
 #print axioms Peppi.Props.C11.readSlpS_frag
+#print axioms Peppi.Props.C11.decPeppiJ_enc
